@@ -63,7 +63,10 @@ class PaneBase:
         custom: t.Optional[IntoConverterHandlers] = None,
         **kwargs: t.Any,
     ):
-        old_params = getattr(cls, '__parameters__', ())
+        # type variables still free in the bases (in all of them: attribute lookup would only see the first base's)
+        old_params = tuple(dict.fromkeys(
+            param for base in cls.__bases__ for param in getattr(base, '__parameters__', ())
+        )) if PANE_BOUNDVARS not in cls.__dict__ else cls.__dict__.get('__parameters__', ())  # (a parametrization comes with its own)
         super().__init_subclass__(*args, **kwargs)
         # parameters listed in an explicit Generic[...] come first (as for any generic class);
         # inherited ones that are still free follow, each at most once
